@@ -5,6 +5,7 @@
 From Coq Require Import ZArith List Bool.
 From Sdfx Require Import Num.Ops.
 From Sdfx Require Import Geo.Vec.
+From Sdfx Require Import Geo.Box.
 Import OpsNotations ListNotations.
 Local Open Scope ops_scope.
 Section Screw.
@@ -42,6 +43,12 @@ Section Screw.
     else if taper >=? opi O * half then None
     else if pitch <=? o0 O then None
     else Some (mkScrew pitch ((- pitch) * ofZ O starts) (length / two) taper).
+
+  (* the bounding box Screw3D stores: `top` is the upper edge (Max.Y) of the thread profile's box, i.e. the
+     radius of the thread; the taper adds length/2 * tan(taper) *)
+  Definition screw_bb (top : T) (s : ScrewSDF3) : Box3 O :=
+    let r := top + s_length s * otan O (s_taper s) in
+    mkBox3 (mkV3 (- r) (- r) (- s_length s)) (mkV3 r r (s_length s)).
 
   (* the point of the profile plane the screw hands to its thread profile *)
   Definition screw_map (s : ScrewSDF3) (p : V3) : V2 :=
